@@ -173,18 +173,32 @@ namespace vf
         }
     }
 
-    inline J ridge_json(Chooser &ch, const Frame &f, const FM &m)
+    inline J ridge_json(Chooser &ch, const Frame &f, const FM &m, int *npoints = nullptr)
     {
-      // one ridge of 2..3 points placed beside the feature
+      // one ridge of 2..3 points placed beside the feature; oblique in a good share of the cases
       J ridges = J::arr();
       J r = J::arr();
       const double d = f.sph ? 10.0 : 800e3;
       const double x0 = m.kernel[0] + (ch.flip() ? -d : d);
       const int n = static_cast<int>(ch.range(2, 3));
+      const double slant = ch.chance(50) ? (f.sph ? ch.lattice(-6, 6, 0.25) : ch.lattice(-500e3, 500e3, 1e3)) : 0.0;
       for (int i = 0; i < n; ++i)
-        r.push(jp(x0 + (f.sph ? ch.lattice(-2, 2, 0.25) : ch.lattice(-100e3, 100e3, 1e3)), m.kernel[1] + (i - (n - 1) / 2.0) * (f.sph ? 20.0 : 1500e3)));
+        {
+          const double t = i - (n - 1) / 2.0;
+          r.push(jp(x0 + t * slant + (f.sph ? ch.lattice(-2, 2, 0.25) : ch.lattice(-100e3, 100e3, 1e3)), m.kernel[1] + t * (f.sph ? 20.0 : 1500e3)));
+        }
       ridges.push(r);
+      if (npoints) *npoints = n;
       return ridges;
+    }
+
+    // constant, or one value per ridge point
+    inline J spreading_json(Chooser &ch, int npoints)
+    {
+      if (ch.chance(60)) return J(ch.real(0.01, 0.15));
+      J vals = J::arr();
+      for (int i = 0; i < npoints; ++i) vals.push(J(ch.real(0.01, 0.15)));
+      return J::arr({J::arr({J(0.0), J::arr({vals})})});
     }
 
     inline J euler_or_matrix(Chooser &ch, J &model, const char *prefix_euler, const char *prefix_mat, size_t n)
@@ -232,8 +246,9 @@ namespace vf
           else if (kind == "half space model" || (kind == "plate model" && m.type == "oceanic plate"))
             {
               t["max depth"] = m.dmax;
-              t["spreading velocity"] = ch.real(0.01, 0.15);
-              t["ridge coordinates"] = ridge_json(ch, f, m);
+              int nrp = 2;
+              t["ridge coordinates"] = ridge_json(ch, f, m, &nrp);
+              t["spreading velocity"] = spreading_json(ch, nrp);
               t["top temperature"] = ch.lattice(273, 300, 1);
               if (ch.flip()) t["bottom temperature"] = ch.lattice(1400, 1800, 50);
             }
@@ -241,9 +256,10 @@ namespace vf
           else if (kind == "plate model") { t["plate velocity"] = ch.real(0.01, 0.15); t["max distance slab top"] = ch.lattice(50e3, 200e3, 10e3); }
           else if (kind == "mass conserving")
             {
-              t["spreading velocity"] = ch.real(0.02, 0.1);
+              int nrp = 2;
+              t["ridge coordinates"] = ridge_json(ch, f, m, &nrp);
+              t["spreading velocity"] = spreading_json(ch, nrp);
               t["subducting velocity"] = ch.real(0.02, 0.1);
-              t["ridge coordinates"] = ridge_json(ch, f, m);
               t["coupling depth"] = ch.lattice(50e3, 120e3, 10e3);
               t["min distance slab top"] = -ch.lattice(50e3, 200e3, 10e3);
               t["max distance slab top"] = ch.lattice(100e3, 200e3, 10e3);
